@@ -60,6 +60,13 @@ def histories(r, strings, quick):
             for e2 in ENTRIES:
                 hs.append([(e1, first), (e2, " a b "), (e1, " a b "), (e2, first)])
     hs.append([("module", "a b"), ("thread", " "), ("module", " "), ("thread", "  c  "), ("module", "  c  ")])
+    # a parse that fails in the middle of a construct (open range, open group, open phrase), then probes whose
+    # reading could depend on a mode the failed parse left behind
+    probes = ["TO~2", "TO:a", "<TO", "TO", "a TO b", "[a TO b]", "x]", "a)", 'a"', "a\nb"]
+    for e1 in ENTRIES:
+        for opener in ("[a TO", "x:{a TO b", "(a (b", '"abc', "f:[1 TO", "[a TO b] '", "a\nb ("):
+            for e2 in ENTRIES:
+                hs.append([(e2, p) for p in probes[:4]] + [(e1, opener)] + [(e2, p) for p in probes])
     for _ in range(70 if quick else 500):
         n = r.randrange(1, maxlen + 1)
         hs.append([(r.choice(ENTRIES), r.choice(strings)) for _ in range(n)])
@@ -266,7 +273,24 @@ def correspond(model_ok, res):
                 res.failures.append(({"input": s[:12] + "...(%d chars)" % len(s), "entry": e,
                                       "why": "exception that is not a ParseError: " + str(v)[:200]}, None))
 
-    res.cases = len(calls) + 2 * len(huge)
+    # --- very deep / very wide queries: both entry points, twice each; a tree or a ParseError, and the same
+    # outcome everywhere (iterative comparison: these trees are too deep for recursive walks)
+    deep = PG.deep_inputs()
+    for s in deep:
+        outs = []
+        for e, fn in (("module", _P.parser.parse), ("thread", _Th.parse), ("thread", _Th.parse),
+                      ("module", _P.parser.parse)):
+            k, v = PG.impl_parse(s, fn)
+            if k == "other":
+                res.failures.append(({"input": s[:16] + "...(%d chars)" % len(s), "entry": e,
+                                      "why": "exception that is not a ParseError: " + str(v)[:200]}, None))
+            outs.append((k, PG.flat_dump(v) if k == "ok" else v))
+        if any(o != outs[0] for o in outs[1:]):
+            res.failures.append(({"input": s[:16] + "...(%d chars)" % len(s),
+                                  "why": "the two entry points / two calls disagree on a deep query",
+                                  "kinds": [o[0] for o in outs]}, None))
+
+    res.cases = len(calls) + 2 * len(huge) + 4 * len(deep)
     res.nontrivial = len(seen_nontrivial)
     res.rule = ("histories of parse calls on both entry points, each started from a fresh import of luqum: a fixed "
                 "corpus (first call blank / leading separator / illegal at 0 / syntax error / malformed number, then "
